@@ -226,7 +226,7 @@ impl Scenario for SigChannel {
         k != S_NONE
     }
     fn real_vs_stub(&self) -> &'static str {
-        "real: ed25519::{keypair, signature, signature_extended, verify} (and through them SHA-512, scalar reduction/muladd, point decoding, double scalar multiplication); stub: scheduler/PRNG, the hostile channel, the Byzantine sender's message search (library SHA-512 + harness big-integer mod L)"
+        "real: ed25519::{keypair, signature, signature_extended, verify} (and through them SHA-512, scalar reduction/muladd, point decoding, double scalar multiplication); stub: scheduler/PRNG, the hostile channel, the Byzantine sender's message search and the verdict model (harness SHA-512, big-integer mod L, integer curve arithmetic)"
     }
     fn cover_rule(&self) -> &'static str {
         "(catalogue entry, message-length class relative to the SHA-512 block after the 32/64-byte prefixes, specified verdict)"
